@@ -19,7 +19,7 @@ LEVEL_TEXT = ('Every row list up to the bound is enumerated and every query clas
               'model is the sequential scan the statement names; states = distinct row lists, transitions = look-ups compared.')
 
 VALS = (0, 1, 2, 3)
-QUERIES = [x / 2 for x in range(0, 8)]
+QUERIES = [x / 2 for x in range(0, 8)] + [math.nextafter(float(k), math.inf) for k in (0, 1, 2, 3)] + [math.nextafter(float(k), -math.inf) for k in (1, 2, 3)]
 DEVS = (0, 0.4, 0.5, 1)
 
 
